@@ -18,7 +18,7 @@ def main():
             print("missing", p)
             ok = False
     build.ensure_built()
-    mods = sorted(glob.glob(os.path.join(tlc.VERIF, "specs", "C*", "*.tla")))
+    mods = sorted(glob.glob(os.path.join(tlc.VERIF, "specs", "[CX]*", "*.tla")))
     fails = []
     procs = []
     for m in mods:
